@@ -29,7 +29,7 @@ def k3(shape, *, history=False, utxos=True):
             elif fl == 'f':
                 sim.flush(True)
         sim.flush(True)
-        chain.check_index(sim, 'final', check_history=history, check_utxos=utxos)
+        chain.check_index(sim, 'final', check_history=history, check_utxos=utxos, check_limits=history)
         if shape.get('reopen'):
             sim.open()
             chain.check_index(sim, 'reopened', check_history=history, check_utxos=utxos, check_fs=False)
@@ -193,7 +193,7 @@ KERNELS = [
                    'RocksDB',
            assumptions=['LevelDB modelled by MemStore (sorted iteration, atomic batches)',
                         'meta files modelled by MemFS'],
-           witnesses=1, prescribe=('sha256',)),
+           witnesses=1, prescribe=('sha256',), split_depth=14),
     Kernel('K1', k1, lambda tier: [{'n': 2}] + ([{'n': 3}] if tier == 'thorough' else []),
            desc='UTXO table layout round trip with every key/value byte symbolic',
            encodes=['electrumx/server/db.py:DB.flush_utxo_db', 'all_utxos', 'lookup_utxos',
